@@ -2,7 +2,7 @@
    (any sequence of BIO calls, results and errors), for every oracle script of the operating system.
    What is NOT proved here: that OpenSSL encrypts and completes handshakes — the engine is an oracle (see DESIGN.md);
    the handshake's progress in driver mode is decided by the correspondence check's liveness monitor (gen/c18.py). *)
-From SP Require Import Base ListAux Os OsLemmas WaitModel WaitLemmas SocketModel Objects DriverModel TlsModel TlsLemmas TlsEmits TlsBracket Sim.
+From SP Require Import Base ListAux Os OsLemmas WaitModel WaitLemmas SocketModel Objects DriverModel TlsModel TlsLemmas TlsEmits TlsBracket TlsInterest Sim.
 Local Open Scope Z_scope.
 
 Local Notation os := (os ext).
@@ -149,6 +149,32 @@ Proof.
   destruct (0 <? m); [inversion H2|]. destruct (T <? 0) eqn:E; [inversion H2|]. apply Z.ltb_ge in E. exact E.
 Qed.
 
+(* The handshake's interest is never lost (what the driver-mode stalls F8/F9 and the seeded change C18/a got wrong): when a
+   driver-side operation returns without progress during the handshake, lastError still names what the engine waits for, and
+   DriverQuery turns that into the poll request. Whether the wait then ends is the peer's and the kernel's business (the
+   liveness monitor of the correspondence check covers that part). *)
+Theorem receive_now_keeps_the_interest : forall k size (s : os) s',
+  tls_receive_now k size s = (Ok 0, s') ->
+  (exists t, aget k (x_tls (o_ext s')) = Some t /\ t_init t = false) ->
+  exists e, last_of s' k = Some e /\ wants e.
+Proof. exact TlsInterest.receive_now_keeps_the_interest. Qed.
+
+Theorem send_some_keeps_the_interest : forall k size (s : os) n s',
+  tls_send_some k size s = (Ok n, s') -> n <> size -> exists e, last_of s' k = Some e /\ wants e.
+Proof. exact TlsInterest.send_some_keeps_the_interest. Qed.
+
+Theorem pending_keeps_the_interest : forall k (s : os) s' t,
+  aget k (x_tls (o_ext s)) = Some t -> t_init t = false ->
+  tls_pending k s = (Ok tt, s') ->
+  (exists e, last_of s' k = Some e /\ wants e) \/ (exists s0 res err, engine k 4 0 s0 = (Ok (res, err), s') /\ 0 < res).
+Proof. exact TlsInterest.pending_keeps_the_interest. Qed.
+
+Theorem known_interest_is_polled : forall t events e,
+  t_init t = false -> t_last t = e -> wants e ->
+  (e = E_WANT_WRITE -> has_bit (snd (tls_query t events)) POLLOUT = true) /\
+  (e = E_WANT_READ -> has_bit (snd (tls_query t events)) POLLOUT = false).
+Proof. exact TlsInterest.known_interest_is_polled. Qed.
+
 (* non-vacuity: a client that sends 5 bytes with unlimited time-out: handshake flights, then the record *)
 Example tls_client_send :
   let tr := run_case [(80, [1]); (23, [1; 5; -1])]
@@ -172,3 +198,7 @@ Print Assumptions unlimited_receive_never_nothing.
 Print Assumptions send_io_inside_engine.
 Print Assumptions receive_io_inside_engine.
 Print Assumptions driver_paths_io_inside_engine.
+Print Assumptions receive_now_keeps_the_interest.
+Print Assumptions send_some_keeps_the_interest.
+Print Assumptions pending_keeps_the_interest.
+Print Assumptions known_interest_is_polled.
